@@ -167,7 +167,8 @@ CLAIMS = {
          "the peeked token); every enclosing construct passes the error on unchanged; a failing render names the template's own file, a "
          "load error the file being parsed. From the source bytes (ErrorLinePipeline.v): any text T (any number of lines) followed by "
          "{{ name }} with name unbound fails with 'identifier not found' at line 1 + (line feeds in T), by the lexer round trip with exact "
-         "positions, the statement parser theorem and the evaluator. End to end for the other kinds: one fault of each kind injected at a "
+         "positions, the statement parser theorem and the evaluator; the same template in a FILE of a loaded tree fails with that line AND the "
+         "path of that file (undefined_identifier_in_a_file). End to end for the other kinds: one fault of each kind injected at a "
          "line known by construction behind every kind of multi-line token.", "8.C13",
          "step theorems on parser/evaluator/loader model + C19 position invariant + fault injection with known line"),
  "C14": ("proof", "A Go map is an association list with distinct keys presented in an arbitrary permutation. Theorems: the key sort of two "
